@@ -407,6 +407,16 @@ def run(req, boot):
             if k is None:
                 continue
             res_by_key.setdefault(k, []).append(val)
+    # oracle 0: every expression of every program is valid single-threaded (the generator
+    # only emits divisible roots etc.), so an exception in a thread means that thread did
+    # not obtain its object - e.g. it was handed a registered but unusable instance
+    if not sched.capped and not sched.deadlock:
+        for t in sched.threads:
+            for ei, (kind, val) in enumerate(t.results):
+                if kind == "raise":
+                    violations.append({"clause": "C20.usable", "signature": "C20/thread-exception/" + str(val),
+                                       "step": sched.steps,
+                                       "detail": {"thread": t.index, "expr": t.program[ei]}})
     if not sched.capped and not sched.deadlock:
         for k in sorted(res_by_key, key=canon):
             objs = res_by_key[k]
